@@ -34,7 +34,9 @@ REQUIRED = ["concurrent runs", "importer processes", "outputs compared with soli
             "runs importing inputs with repeated lines under merge_strategy=warning",
             "runs with GTF importers that have gene and transcript inference switched off",
             "importer processes had run an earlier job: gtf with custom keys", "importer processes had run an earlier job: file with directives",
-            "runs whose importers take a finished database (FeatureDB) as data"]
+            "runs whose importers take a finished database (FeatureDB) as data",
+            "runs whose importers pass non-default create_db options", "importer processes with a truthy verbose option",
+            "GTF importer processes with a truthy verbose option"]
 ASSUMPTIONS = [
     "overlap is forced at the one point where gffutils holds an intermediate file (between writing and re-reading it); other "
     "interleavings are left to the scheduler (free-running runs with start offsets are included so the barrier cannot mask a failure)",
@@ -85,13 +87,44 @@ def huge_annotation(seed):
     return "\n".join(lines) + "\n"
 
 
-def spawn(argsfile, tmpdir, hashseed=None):
+# create_db options a caller may pass that are not about the data: an import run with them is still "a create_db run" of the
+# statement (same database as a solitary run WITH THE SAME OPTIONS, nothing left in the shared temp directory)
+OPTION_SETS = [{"verbose": True}, {"verbose": "debug"}, {"verbose": True, "keep_order": True},
+               {"verbose": "debug", "sort_attribute_values": True}, {"verbose": 1, "checklines": 3}]
+
+# Starts the ordinary worker, but the judged import (the create_db call whose output is this importer's out_db) gets the
+# caller-level keyword options of the case in addition to the worker's own.  Nothing of gffutils is replaced: only the
+# call the worker makes is given more keyword arguments.
+_LAUNCHER = r"""
+import json, sys
+args = json.load(open(sys.argv[1]))
+extra = {}
+for a in [args] + list(args.get("children") or []):
+    if a.get("create_kwargs"):
+        extra[a["out_db"]] = a["create_kwargs"]
+from gvmon.procs import c20_worker
+if extra:
+    from gvmon import env
+    env.prepare()
+    import gffutils
+    _orig = gffutils.create_db
+    def create_db(data, dbfn, *a, **kw):
+        more = extra.get(dbfn) if isinstance(dbfn, str) else None
+        if more:
+            kw = dict(more, **kw)
+        return _orig(data, dbfn, *a, **kw)
+    gffutils.create_db = create_db
+sys.exit(c20_worker.main())
+"""
+
+
+def spawn(argsfile, tmpdir, hashseed=None, options=False):
     env = dict(os.environ)
     env["TMPDIR"] = tmpdir
     if hashseed is not None:
         env["PYTHONHASHSEED"] = str(hashseed)      # separately started processes do not share a string-hash seed
-    return subprocess.Popen([sys.executable, "-m", "gvmon.procs.c20_worker", argsfile], env=env, cwd=HERE,
-                            stdout=subprocess.DEVNULL, stderr=subprocess.PIPE)
+    cmd = [sys.executable, "-c", _LAUNCHER, argsfile] if options else [sys.executable, "-m", "gvmon.procs.c20_worker", argsfile]
+    return subprocess.Popen(cmd, env=env, cwd=HERE, stdout=subprocess.DEVNULL, stderr=subprocess.PIPE)
 
 
 _solo_cache = {}
@@ -118,12 +151,14 @@ def file_state(path):
     return {"side_files": side, "format_versions": [head[18], head[19]] if len(head) >= 20 else None}
 
 
-def solitary(ctx, root, text, from_string, strategy=None, no_inference=False, from_db=False):
+def solitary(ctx, root, text, from_string, strategy=None, no_inference=False, from_db=False, options=None):
     """Content dump of a solitary import of this input (done in this process, with its own temp directory)."""
     import gffutils
 
-    key = (text, from_string, strategy, no_inference, from_db)
+    key = (text, from_string, strategy, no_inference, from_db, json.dumps(options, sort_keys=True) if options else None)
     skw = {"merge_strategy": strategy} if strategy else {}
+    if options:
+        skw.update(options)
     if no_inference:
         skw.update({"disable_infer_genes": True, "disable_infer_transcripts": True})
     if key in _solo_cache:
@@ -157,6 +192,14 @@ def solitary(ctx, root, text, from_string, strategy=None, no_inference=False, fr
     return dump
 
 
+def option_set(case, i):
+    """The create_db options importer i of this case passes (None: the defaults)."""
+    opts = case.get("options")
+    if not opts:
+        return None
+    return opts[i % len(opts)]
+
+
 def execute(ctx, case):
     if case["kind"] == "imports":
         return imports(ctx, case)
@@ -186,7 +229,7 @@ def imports(ctx, case):
             texts.append(t)
         solos = [solitary(ctx, root, t, case["from_string"], case.get("strategy"),
                           no_inference=bool(case.get("no_inference")) and case["fmts"][j % len(case["fmts"])] == "gtf",
-                          from_db=bool(case.get("from_db")))
+                          from_db=bool(case.get("from_db")), options=option_set(case, j))
                  for j, t in enumerate(texts)]
         try:
             ino = subprocess.Popen(["inotifywait", "-m", "-q", "-e", "create", "-e", "delete", "--format", "%e %f", tmpdir],
@@ -230,6 +273,8 @@ def imports(ctx, case):
                 a["no_inference"] = True
             if case.get("shared_iterator"):
                 a["shared_iterator"] = True
+            if option_set(case, i):
+                a["create_kwargs"] = option_set(case, i)
             if case.get("prefix_names"):
                 a["force"] = True
             if case.get("late_starter") and i == 0:
@@ -248,7 +293,8 @@ def imports(ctx, case):
             if case.get("forkpool"):
                 procs.append((i, a, None))
             else:
-                procs.append((i, a, spawn(af, tmpdir, hashseed=rng.randrange(1, 2 ** 31) if case.get("hashseeds") else None)))
+                procs.append((i, a, spawn(af, tmpdir, hashseed=rng.randrange(1, 2 ** 31) if case.get("hashseeds") else None,
+                                          options=bool(case.get("options")))))
         if case.get("forkpool"):
             # one parent interpreter that has already imported and used gffutils forks all N importers
             pf = os.path.join(outdir, "args_pool.json")
@@ -256,7 +302,7 @@ def imports(ctx, case):
             json.dump({"role": "forkpool", "children": [a for _, a, _ in procs], "result": os.path.join(outdir, "res_pool.json"),
                        "parent_dir": os.path.join(root, "parent"), "parent_actions": case.get("parent_actions", []),
                        "shared_input": procs[0][1]["input"] if case.get("shared_iterator") else None}, open(pf, "w"))
-            parent = spawn(pf, tmpdir)
+            parent = spawn(pf, tmpdir, options=bool(case.get("options")))
             procs = [(i, a, parent) for i, a, _ in procs]
         failer = None
         if case.get("failer") and case["barrier"]:
@@ -427,6 +473,18 @@ def imports(ctx, case):
                 ctx.mon("importer processes had run an earlier job: " + job)
         if case.get("from_db"):
             ctx.mon("runs whose importers take a finished database (FeatureDB) as data")
+        if case.get("options"):
+            ctx.mon("runs whose importers pass non-default create_db options")
+            for j in range(N):
+                o = option_set(case, j)
+                if o:
+                    ctx.mon("importer processes with non-default create_db options")
+                    for k_ in sorted(o):
+                        ctx.mon("importer processes with option %s=%r" % (k_, o[k_]))
+                    if o.get("verbose"):
+                        ctx.mon("importer processes with a truthy verbose option")
+                        if case["fmts"][j % len(case["fmts"])] == "gtf":
+                            ctx.mon("GTF importer processes with a truthy verbose option")
         if case.get("strategy"):
             ctx.mon("runs importing inputs with repeated lines under merge_strategy=%s" % case["strategy"])
         if case.get("no_inference"):
@@ -611,6 +669,31 @@ def run(ctx):
                 pat = case.pop("_pattern", [])
                 ctx.case((N, mix, "forkpool", pat), ov >= 2, sample={"n": N, "mix": mix, "variant": "forkpool", "max_overlap": ov},
                          cls="variant=forkpool")
+    # caller-level create_db options that are not about the data (verbose progress/debug output, keep_order,
+    # sort_attribute_values, checklines): importers of one run use different option sets, some the defaults
+    for rep in range(reps):
+        for N in ([2, 4, 8] if ctx.tier == "quick" else [2, 4, 8, 16, 24]):
+            for mix in ("gff3+gtf", "gtf", "different"):
+                for launch in ("spawned", "forked"):
+                    i += 1
+                    if not ctx.mine(i):
+                        continue
+                    if ctx.tier == "quick" and ((mix == "different" and N != 4) or (launch == "forked" and (N != 4 or mix != "gff3+gtf"))):
+                        continue
+                    fmts = {"different": ["gff3"], "gff3+gtf": ["gff3", "gtf"], "gtf": ["gtf"]}[mix]
+                    k = rng.randrange(len(OPTION_SETS))
+                    # an odd number of slots, so that with two alternating formats every format meets every option set
+                    opts = [OPTION_SETS[(k + j) % len(OPTION_SETS)] for j in range(3)] + [None, OPTION_SETS[(k + 3) % len(OPTION_SETS)]]
+                    case = {"kind": "imports", "n": N, "fmts": fmts, "seeds": [rng.randrange(10 ** 6) for _ in range(N)],
+                            "size": 3 if N > 2 else 12, "from_string": False, "barrier": N != 2, "options": opts}
+                    if launch == "forked":
+                        case.update({"forkpool": True, "parent_actions": []})
+                    execute(ctx, case)
+                    ov = case.pop("_overlap", 0)
+                    pat = case.pop("_pattern", [])
+                    ctx.case((N, mix, "options", launch, k, pat), ov >= 2,
+                             sample={"n": N, "mix": mix, "variant": "create_db options", "launch": launch, "options": opts, "max_overlap": ov},
+                             cls="variant=create_db options")
     # statement-level schedules: one importer parked at the k-th statement of a creation step while a neighbour import
     # starts, runs and finishes
     points = [(f, k) for f, kmax in PARK_FUNCTIONS for k in range(1, kmax + 1)]
@@ -655,7 +738,7 @@ MANIFEST = {
             "hold a live intermediate file, so the overlap is observed, not hoped for; runs without the barrier and with random "
             "start offsets are added. Every temp path each process opens/creates/removes is logged by an audit hook and checked "
             "offline together with an independent inotify log; each output is compared with a solitary import through plain "
-            "sqlite3. Reader processes read a finished database simultaneously while an import runs beside them. Variants: outputs sharing a basename in different directories, flat inputs without second-level relations, a deliberately failing neighbour import released while the healthy ones hold their intermediate files, imports of ~2*10^5 features, and a look into the directory while each importer process is still alive; readers also run region/limit queries. Importers are also forked (os.fork) from one parent interpreter that has already used the library (set_pragmas, update/delete, a failed import, the escape switch toggled and restored); one importer is parked at each of the first statements of _update_relations/_finalize/_populate_from_lines while a neighbour import starts, runs and finishes; outputs whose names are prefixes of one another are imported with force=True over stale files with one late starter; the journal mode and side files of each output are compared with a solitary import's; forked importers also share one DataIterator object made by their parent; spawned importers get their own PYTHONHASHSEED and the rows are compared in stored order; the importers' garbage collector is off (what a pool worker ending through os._exit is left with), some inputs repeat their own lines under merge_strategy warning/merge/create_unique, some GTF importers run with both inference options off; importer processes first run earlier jobs (a GTF import with custom keys, a file with directives, a failed import, switches toggled and restored) and some take a finished database (FeatureDB) as their data.",
+            "sqlite3. Reader processes read a finished database simultaneously while an import runs beside them. Variants: outputs sharing a basename in different directories, flat inputs without second-level relations, a deliberately failing neighbour import released while the healthy ones hold their intermediate files, imports of ~2*10^5 features, and a look into the directory while each importer process is still alive; readers also run region/limit queries. Importers are also forked (os.fork) from one parent interpreter that has already used the library (set_pragmas, update/delete, a failed import, the escape switch toggled and restored); one importer is parked at each of the first statements of _update_relations/_finalize/_populate_from_lines while a neighbour import starts, runs and finishes; outputs whose names are prefixes of one another are imported with force=True over stale files with one late starter; the journal mode and side files of each output are compared with a solitary import's; forked importers also share one DataIterator object made by their parent; spawned importers get their own PYTHONHASHSEED and the rows are compared in stored order; the importers' garbage collector is off (what a pool worker ending through os._exit is left with), some inputs repeat their own lines under merge_strategy warning/merge/create_unique, some GTF importers run with both inference options off; importer processes first run earlier jobs (a GTF import with custom keys, a file with directives, a failed import, switches toggled and restored) and some take a finished database (FeatureDB) as their data; importers of one run pass different caller-level create_db options (verbose=True/'debug', keep_order, sort_attribute_values, checklines) and are compared with a solitary import run with the same options.",
     "note": "Trusted: the OS scheduler only for the free-running class; CPython audit events for open/remove/mkstemp. Evidence "
             "reports the maximum number of simultaneously live intermediate files actually seen.",
 }
